@@ -19,7 +19,7 @@ model and its definition is flagged in the output (`MODELDIFF`), so that it fail
 The harness prints the same canonical form from the REAL outputs; a difference is a violation.
 
     diag3  -> nr=<b> sv=<ids> ie=<a>b,…> or=<1|0|panic>
-    diagd3 -> nr=<b> sv=<ids> ie=<…>                      (degenerate faces allowed)
+    diagd3 -> nr=<b> ie=<…>                               (degenerate faces allowed)
     clus3  -> <v>:<cluster>|<cluster> …                   (clusters of face indices per vertex)
     rnm3   -> ok groups=<idx:flag,…|…> flip=<idx…> n=<count> clean=<b>  |  panic:<msg>
     rn3    -> flip=<idx…> n=<count> clean=<b>
@@ -150,9 +150,14 @@ def specInconsistent (ts : List Tri) : List Edge :=
       else acc
   (go 0 [] (es.size + 1)).reverse
 
-/-- Naive closure to a fixpoint (at most `|U|` rounds). -/
-def closeOver {α : Type} [BEq α] (adj : α → α → Bool) (U : List α) (start : List α) : List α :=
-  closure adj U U.length start
+/-- Closure of `start` in `U` under `adj` (frontier iteration to the fixpoint): the set the
+definition `Reach adj U` describes. -/
+partial def closeOver {α : Type} [BEq α] (adj : α → α → Bool) (U : List α) (start : List α) : List α :=
+  let rec go (visited frontier rest : List α) : List α :=
+    if frontier.isEmpty then visited else
+    let p := rest.partition fun y => frontier.any fun x => adj x y
+    go (visited ++ p.1) p.1 p.2
+  go start start (U.filter fun y => !start.contains y)
 
 /-- The vertices whose fan graph (faces at `v`, adjacent when they share an edge) is disconnected. -/
 def specSingular (ts : List Tri) : List Nat :=
@@ -266,8 +271,12 @@ def handleDiag3 (withOr : Bool) (ts : List Tri) : String :=
   let diff := (if mnr != nr then " MODELDIFF:nr" else "") ++ (if msv != sv then " MODELDIFF:sv" else "")
     ++ (if mie != ie then " MODELDIFF:ie" else "") ++ (if !fanOk then " MODELDIFF:fan" else "")
     ++ (if eb && (nr || !ie.isEmpty) then " MODELDIFF:eb" else "")
-  s!"nr={boolStr nr} sv={showNats sv} ie={showEdges ie}" ++
-    (if withOr then s!" or={orientStr ts}" else "") ++ diff
+  if withOr then s!"nr={boolStr nr} sv={showNats sv} ie={showEdges ie} or={orientStr ts}" ++ diff
+  else
+    -- degenerate faces: `SharesEdge` is not symmetric on them, the fan search depends on the
+    -- iteration order; only the edge diagnostics are compared
+    s!"nr={boolStr nr} ie={showEdges ie}" ++ (if mnr != nr then " MODELDIFF:nr" else "") ++
+      (if mie != ie then " MODELDIFF:ie" else "")
 
 /-! ### clus3 -/
 
